@@ -1,4 +1,5 @@
 import WV.Model.C07
+import WV.Proofs.C07_Connect
 
 /-! `connect()` has completed by its deadline: invariants linking `_fired`, the result of
 `connect()` and the `_not_forever` delayed call, preserved by every event, and the argument that
@@ -301,7 +302,8 @@ theorem connect_tailB (w2 : World) (ks : List Nat) (s : Nat) (hP : P1 w2)
     omega
 
 theorem K_evConnect {w w' : World} (h : K w) (he : evConnect w = some w') : K w' := by
-  unfold evConnect at he
+  rw [evConnect_eq] at he
+  unfold evConnectHead at he
   split at he
   · cases he
   · rename_i hst
